@@ -986,6 +986,8 @@ def distribution(cases, obs):
                 spec.apply(op, res[0] == 'ok')
                 for p in probes:
                     e = p[1][0]
+                    if e == 'oof':
+                        d['model_oof_skipped'] += 1
                     d['probe_end'][e] = d['probe_end'].get(e, 0) + 1
                     a = str(min(len(p[0]), 8))
                     d['answers_per_probe'][a] = d['answers_per_probe'].get(a, 0) + 1
